@@ -192,6 +192,8 @@ def oracle_c10(cfg, steps, isteps):
         t = st.split()
         if t and t[0].startswith("fuse="):
             t = t[1:]
+        if t and t[0] in ("treserve", "treserve_exact", "tshrink_to_fit", "tshrink_to"):    # the same promises through the typed view
+            t[0] = t[0][1:]
         lens, caps = _nums(l.get("len", "")), _nums(l.get("cap", ""))
         for a, b in zip(lens, caps):
             if a is not None and b is not None and a > b:
